@@ -21,9 +21,7 @@ H(name, x) ==
                              ELSE KSub(KQ(One), KSqrt(KQ(Mul(Half, Sub(One, x)))))
 
 \* exact variant for the engine-level models: the result when it is rational, otherwise the marker Irr
-Irr == <<3, 0, 1>>                 \* "not representable exactly"; drivers skip cases whose expectation contains it
-IsIrr(x) == x[1] = 3
-HX(name, x) == IF IsIrr(x) THEN Irr ELSE LET e == H(name, x) IN IF IsQ(e) THEN QV(e) ELSE Irr
+HX(name, x) == IF IsBad(x) THEN x ELSE LET e == H(name, x) IN IF IsQ(e) THEN QV(e) ELSE Irr
 \* a chain of hedges written `h1 h2 ... hn term` applies from the one nearest the term outwards
 RECURSIVE HChain(_,_)
 HChain(hs, x) == IF hs = <<>> THEN x ELSE HX(Head(hs), HChain(Tail(hs), x))
